@@ -79,6 +79,27 @@ def _cases(draw, ctx):
     c = draw(G.chart_specs(max_segments=3, max_tracks=2, min_tracks=1, max_notes=ctx.pick(8, 20),
                            max_events=4, max_ts=2, max_anchors=1, min_notes=2, with_layout=False))
     spec = c["spec"]
+    # well-formed lines written TWICE in a row (same tick, same everything): each copy is a body line of its
+    # own and contributes its own datum
+    if draw(st.integers(0, 2)) == 0:
+        spec = dict(spec)
+        kind = draw(st.sampled_from(["events", "S", "E", "TS"]))
+        if kind == "events" and spec["events"]:
+            k = draw(st.integers(0, len(spec["events"]) - 1))
+            spec["events"] = spec["events"][:k + 1] + [list(spec["events"][k])] + spec["events"][k + 1:]
+        elif kind == "TS":
+            idx = [i for i, it in enumerate(spec["sync"]) if it[1] == "TS"]
+            k = draw(st.sampled_from(idx))
+            spec["sync"] = spec["sync"][:k + 1] + [list(spec["sync"][k])] + spec["sync"][k + 1:]
+        else:
+            tracks = {}
+            for h, items in spec["tracks"].items():
+                idx = [i for i, it in enumerate(items) if it[1] == kind]
+                if idx:
+                    k = draw(st.sampled_from(idx))
+                    items = items[:k + 1] + [list(items[k])] + items[k + 1:]
+                tracks[h] = items
+            spec["tracks"] = tracks
     secs = [(n, b) for n, b in S.sections_of(spec) if n != "Song"]
     ins = {}
     moved = {}
@@ -151,6 +172,28 @@ def check_case(ctx: Ctx, case) -> None:
         ctx.fail("parsable-not-reported", f"well-formed chart logged {[r.getMessage() for r in recs0][:3]}",
                  {"text": base_text})
     base_obs = observation(base)
+    # conservation without any garbage: one datum per body line (counted per kind with the harness' own
+    # recognisers; note lines are grouped by the parser, so they are counted through their ticks)
+    st_, g_ = base.sync_track, base.global_events_track
+    want_counts = {"ts": sum(1 for it in spec["sync"] if it[1] == "TS"),
+                   "bpm": sum(1 for it in spec["sync"] if it[1] == "B"),
+                   "anchors": sum(1 for it in spec["sync"] if it[1] == "A"),
+                   "global": len(spec["events"])}
+    got_counts = {"ts": len(st_.time_signature_events), "bpm": len(st_.bpm_events),
+                  "anchors": len(st_.anchor_events),
+                  "global": len(g_.text_events) + len(g_.section_events) + len(g_.lyric_events)}
+    for h, items in spec["tracks"].items():
+        try:
+            tr = base.instrument_tracks[L.Instrument[S.HEADERS[h][0]]][L.Difficulty[S.HEADERS[h][1]]]
+        except KeyError:
+            ctx.fail("one-datum-per-line", f"track {h} missing", {"text": base_text})
+            continue
+        want_counts[h] = [sum(1 for it in items if it[1] == "S"), sum(1 for it in items if it[1] == "E")]
+        got_counts[h] = [len(tr.star_power_events), len(tr.track_events)]
+    if got_counts != want_counts:
+        bad = {k: (got_counts.get(k), want_counts[k]) for k in want_counts if got_counts.get(k) != want_counts[k]}
+        ctx.fail("one-datum-per-line", f"body lines and events do not match one to one (got, lines): {bad}",
+                 {"text": base_text})
     nontrivial = False
     for label in ("ins", "moved"):
         text, info, garbage = _render(spec, case[label])
